@@ -91,6 +91,8 @@ CheckRecord(k) ==
          /\ (IF c.op \in {"hq", "hcheck"} THEN Report("FAIL", k, QueryClauses(pre, c, RetOf(r), InfoOf(r))) ELSE TRUE)
          /\ (IF c.op \in {"uniquify", "flatten"} THEN Report("FAIL", k, TransformClauses(pre, c, r.out, post)) ELSE TRUE)
          /\ (IF c.op = "edif_read" THEN Report("FAIL", k, EdifReadClauses(pre, c, r.out, post, RetOf(r))) ELSE TRUE)
+         /\ (IF c.op = "file_read" THEN Report("FAIL", k, FileReadClauses(c, r.out, post, RetOf(r))) ELSE TRUE)
+         /\ (IF c.op = "edif_file_read" THEN Report("FAIL", k, EdifFileClauses(c, r.out, post, RetOf(r), r)) ELSE TRUE)
          /\ (IF c.op = "edif_rt" THEN Report("FAIL", k, EdifRtClauses(pre, c, r.out, post, RetOf(r), r)) ELSE TRUE)
          /\ (IF c.op = "edif_rt" THEN Report("FAIL", k, EdifNameClauses(pre, c, r.out, post, RetOf(r), r)) ELSE TRUE)
          /\ (IF c.op = "parse_text" THEN Report("FAIL", k, ParseClauses(pre, c, post, RetOf(r), r)) ELSE TRUE)
@@ -105,9 +107,12 @@ CheckRecord(k) ==
          /\ (IF HasMirror(r)
              THEN Report("FAIL", k, << <<"C19_MirrorExact", C19_MirrorExact(post, MirrorAfter(r))>>,
                                        <<"C19_BeforeEffect", C19_BeforeEffect(r.ann)>>,
-                                       <<"C19_Transparent", IF "agree" \in DOMAIN r THEN r.agree ELSE TRUE>> >>)
+                                       <<"C19_Transparent", IF "agree" \in DOMAIN r THEN r.agree ELSE TRUE>>,
+                                       <<"C19_ReplayExact", c.op \in IROps => C19_ReplayExact(pre, c, r.out, post, r.ann)>> >>)
              ELSE TRUE)
-         /\ (IF Strict /\ ~("extra" \in DOMAIN c /\ c.extra) /\ c.op \notin {"other", "uniquify", "flatten", "q", "edif_read", "edif_rt", "vlog_read", "vlog_rt", "eblif_read", "eblif_rt", "compose2", "parse_text"}
+         /\ (IF Strict /\ HasMirror(r) /\ c.op \in IROps
+             THEN Report("DRIFT", k, << <<"announcements", AnnouncementsAsModel(pre, c, r.ann)>> >>) ELSE TRUE)
+         /\ (IF Strict /\ ~("extra" \in DOMAIN c /\ c.extra) /\ c.op \notin {"other", "file_read", "edif_file_read", "uniquify", "flatten", "q", "edif_read", "edif_rt", "vlog_read", "vlog_rt", "eblif_read", "eblif_rt", "compose2", "parse_text"}
              THEN Report("DRIFT", k, StrictClauses(pre, c, r.out, post, RetOf(r))) ELSE TRUE)
 
 Init == l = 0
